@@ -78,6 +78,15 @@ func discoverSideFiles(p *Prog) []sideFile {
 
 // loadsField: v is a load of WritingState.<field>.
 func loadsWS(v ssa.Value, field string) bool {
+	// a local that holds the field's value, read again after the field was set: a merge of loads
+	if ph, isPhi := v.(*ssa.Phi); isPhi && len(ph.Edges) > 0 {
+		for _, e := range ph.Edges {
+			if _, again := e.(*ssa.Phi); again || !loadsWS(e, field) {
+				return false
+			}
+		}
+		return true
+	}
 	o, f, _, ok := FieldOf(v)
 	return ok && o == wsT && f == field
 }
@@ -225,8 +234,22 @@ func c20Stop(p *Prog, r *Report, sfs []sideFile) {
 	}
 	r.Fn(FuncName(stop))
 	// the closing sequence of a file may sit in Stop or in a helper method Stop calls
+	// method calls on a handle, also when the handle reaches a helper as an argument
+	findOn := func(field, method string) []DeepInstr {
+		var out []DeepInstr
+		InstrsDeep(stop, 2, func(d DeepInstr) {
+			cc := CallOf(d.In)
+			if cc == nil || len(cc.Args) == 0 || !strings.HasSuffix(CalleeName(cc), ")."+method) {
+				return
+			}
+			if loadsWS(cc.Args[0], field) || loadsWS(ArgForParam(d.Path, cc.Args[0]), field) {
+				out = append(out, d)
+			}
+		})
+		return out
+	}
 	for _, sf := range sfs {
-		closes := FindDeep(stop, 2, func(in ssa.Instruction) bool { return methodCallOn(in, sf.file, "Close") })
+		closes := findOn(sf.file, "Close")
 		key := "STOP: " + sf.file
 		if len(closes) == 0 {
 			r.Bad("C20.R1", key+" is closed", p.Pos(stop.Pos()), "Stop never closes this file")
@@ -242,7 +265,7 @@ func c20Stop(p *Prog, r *Report, sfs []sideFile) {
 		guarded := false
 		for _, at := range append([]ssa.Instruction{closeCall}, cd.Path...) {
 			for _, c := range controllingIfs(at.Block()) {
-				if bo, ok := c.If.Cond.(*ssa.BinOp); ok && loadsWS(bo.X, sf.file) {
+				if bo, ok := c.If.Cond.(*ssa.BinOp); ok && (loadsWS(bo.X, sf.file) || loadsWS(ArgForParam(cd.Path, bo.X), sf.file)) {
 					if (bo.Op == token.NEQ && c.Branch == 0) || (bo.Op == token.EQL && c.Branch == 1) {
 						guarded = true
 					}
@@ -250,8 +273,35 @@ func c20Stop(p *Prog, r *Report, sfs []sideFile) {
 			}
 		}
 		r.Check(guarded, "C20.R1", key+" is closed only when open", p.InstrPos(closeCall), "close under a non-nil test of the handle", "Close is not guarded by a non-nil test of the handle")
+		// ... and always when open: from the non-nil side of that test no normal exit of the closing
+		// function is reachable without passing the Close (no other condition may skip it)
+		if guarded {
+			skipped := ""
+			for _, c := range controllingIfs(closeCall.Block()) {
+				bo, ok := c.If.Cond.(*ssa.BinOp)
+				if !ok || !(loadsWS(bo.X, sf.file) || loadsWS(ArgForParam(cd.Path, bo.X), sf.file)) {
+					continue
+				}
+				if !((bo.Op == token.NEQ && c.Branch == 0) || (bo.Op == token.EQL && c.Branch == 1)) {
+					continue
+				}
+				open := c.If.Block().Succs[c.Branch]
+				if len(open.Instrs) == 0 {
+					continue
+				}
+				miss := ReachAvoiding(host, open.Instrs[0], func(x ssa.Instruction) bool { return x == closeCall }, normalExit(host))
+				if open.Instrs[0] == closeCall {
+					miss = nil
+				}
+				if len(miss) > 0 {
+					skipped = p.InstrPos(miss[0])
+				}
+			}
+			r.Check(skipped == "", "C20.R1", key+" is closed whenever it is open", p.InstrPos(closeCall), "no way from the open side of the handle test to a normal exit misses the Close",
+				"with the file open, the normal exit at "+skipped+" is reachable without closing it (another condition skips the flush and close): the handles are cleared all the same, the descriptor leaks, and what a later flush would have written never reaches the file")
+		}
 		if sf.writer != "" {
-			flushes := FindDeep(stop, 2, func(in ssa.Instruction) bool { return methodCallOn(in, sf.writer, "Flush") })
+			flushes := findOn(sf.writer, "Flush")
 			okF := false
 			for _, f := range flushes {
 				okF = okF || DeepDominates(f, cd)
@@ -264,6 +314,10 @@ func c20Stop(p *Prog, r *Report, sfs []sideFile) {
 				continue
 			}
 			miss := ReachAvoiding(host, closeCall, MustPass(func(in ssa.Instruction) bool { return isNilStoreTo(in, h) }, 2), normalExit(host))
+			if len(miss) > 0 && host != stop && len(cd.Path) > 0 && cd.Path[0].Parent() == stop {
+				// the helper closes a file it was handed; the handles are cleared by Stop after the call
+				miss = ReachAvoiding(stop, cd.Path[0], MustPass(func(in ssa.Instruction) bool { return isNilStoreTo(in, h) }, 2), normalExit(stop))
+			}
 			r.Check(len(miss) == 0, "C20.R1", key+": handle "+h+" is cleared after closing", p.InstrPos(closeCall), "nil stored on every path to the normal exit", "after closing, a normal exit is reachable with the handle still set: the next run writes into a closed file")
 		}
 		// the file name is cleared on every path to the normal exit, whether or not the file was opened
@@ -432,6 +486,24 @@ func c20Create(p *Prog, r *Report, sfs []sideFile) {
 					}
 				}
 			}
+			if !guarded {
+				// the creation sits in a helper: the nil test is around each of its calls
+				if sites, complete := p.staticCallSites(fn); complete && len(sites) > 0 {
+					all := true
+					for _, site := range sites {
+						g := false
+						for _, c := range controllingIfs(site.Block()) {
+							if bo, ok := c.If.Cond.(*ssa.BinOp); ok {
+								if (loadsWS(bo.X, sf.file) || (sf.writer != "" && loadsWS(bo.X, sf.writer))) && ((bo.Op == token.EQL && c.Branch == 0) || (bo.Op == token.NEQ && c.Branch == 1)) {
+									g = true
+								}
+							}
+						}
+						all = all && g
+					}
+					guarded = all
+				}
+			}
 			r.Check(guarded, "C20.R1", key+" only when no handle is open", p.InstrPos(in), "under a nil test of the handle", "the side file can be re-created (truncated) while it is already open")
 		})
 	}
@@ -482,6 +554,54 @@ func c20Events(p *Prog, r *Report, sfs []sideFile) {
 				extra = d
 			}
 			r.Check(extra == "", "C20.R2", "external triggers: the write depends only on writer-exists and list-non-empty", p.InstrPos(w), "no other condition", "the write is additionally conditional on `"+extra+"`: some delivered triggers are not recorded")
+			// the writer that is used is the handle as it is now: a copy of the field read before a
+			// point where the field is assigned (the lazy open, here or in a helper) is stale - nil
+			// for exactly the block that opens the file, whose triggers are then not written
+			assigns := func(x ssa.Instruction) bool {
+				if st, ok := x.(*ssa.Store); ok {
+					if o, f, _, okf := FieldOf(st.Addr); okf && o == wsT && f == "externalTriggerFileBufferedWriter" {
+						return true
+					}
+				}
+				if call, ok := x.(*ssa.Call); ok {
+					if g := call.Call.StaticCallee(); g != nil && isModuleFn(g) && g.Blocks != nil {
+						for _, h := range DeepFuncs(g, 1) {
+							if len(StoresTo(h, wsT, "externalTriggerFileBufferedWriter")) > 0 {
+								return true
+							}
+						}
+					}
+				}
+				return false
+			}
+			stale := ""
+			var checkVal func(v ssa.Value, until ssa.Instruction, d int)
+			checkVal = func(v ssa.Value, until ssa.Instruction, d int) {
+				if d > 3 || stale != "" {
+					return
+				}
+				switch x := v.(type) {
+				case *ssa.Phi:
+					for i, e := range x.Edges {
+						pred := x.Block().Preds[i]
+						checkVal(e, pred.Instrs[len(pred.Instrs)-1], d+1)
+					}
+				case *ssa.UnOp:
+					if x.Op != token.MUL {
+						return
+					}
+					hits := ReachAvoiding(het, x, func(y ssa.Instruction) bool { return y == until }, assigns)
+					// the assignment must also be able to go on to the use
+					for _, h := range hits {
+						if h == until || InstrReaches(h, until) {
+							stale = p.InstrPos(h)
+						}
+					}
+				}
+			}
+			checkVal(CallOf(w).Args[0], w, 0)
+			r.Check(stale == "", "C20.R2", "external triggers: the writer used is the handle as it is at the write", p.InstrPos(w), "no assignment of the handle between reading it and using it",
+				"the write goes through a copy of the handle that was read before the handle is assigned at "+stale+" (the lazy open): in the block that opens the file the copy is still nil, so that block's triggers are never written")
 			// nothing can return between entry and the write except creation errors: every normal path with the conditions true passes it (structural: the write block post-dominates its condition)
 		}
 	}
@@ -700,6 +820,24 @@ func c20Who(p *Prog, r *Report, sfs []sideFile) {
 				isWS = true
 			}
 			isHandler := strings.HasPrefix(u, "(*AnySource).Handle")
+			// an unexported helper whose only callers are the writing state's methods and the block handlers
+			if uf := userFns[u]; uf != nil && !isWS && !isHandler && uf.Object() != nil && !uf.Object().Exported() {
+				sites, complete := p.staticCallSites(uf)
+				if complete && len(sites) > 0 {
+					all := true
+					for _, site := range sites {
+						caller := site.Parent()
+						for caller.Parent() != nil {
+							caller = caller.Parent()
+						}
+						cn := FuncName(caller)
+						if !strings.HasPrefix(cn, "(*"+wsT+").") && !strings.HasPrefix(cn, "(*AnySource).Handle") {
+							all = false
+						}
+					}
+					isHandler = all
+				}
+			}
 			if !isWS && !isHandler {
 				bad = u
 			}
